@@ -207,7 +207,23 @@ def body(ctx: Ctx):
         ctx.case({"argv": argv}, nontrivial=("--host" in argv or "--zmqport" in argv))
         ctx.count("parse.indexerror" if got == "IndexError" else "parse.ok")
         if got != mp:
-            report("parse_arguments_vs_model", {"argv": argv}, got, mp)
+            # Cmd.parseArgs is what theorem parse_roundtrip is about: on a command line that names a port the worker must
+            # recover exactly what the model recovers, so such a difference is a failing input, not only a broken tie
+            well_formed = isinstance(mp, dict) and "zmqport" in mp
+            report("parse_arguments_vs_model", {"argv": argv}, got, mp, {"in_domain": well_formed, "ok": False})
+    # the same parser called several times in one process (in-process workers, tests): every call stands alone
+    seq = [["--zmqport", "1111", "--host", "node-a"], ["--zmqport", "2222"], ["--host", "node-b", "--zmqport", "3333"], ["--zmqport", "4444"]]
+    firsts = []
+    for argv in seq:
+        got = parse_arguments(list(argv))
+        mp = m.ask("parse_args", argv=argv)
+        firsts.append((argv, dict(got) if isinstance(got, dict) else got, got, mp))
+        ctx.case({"argv_sequence": argv}, nontrivial=True)
+        if got != mp:
+            report("parse_arguments_sequence", {"argv": argv, "earlier": [a for a, _, _, _ in firsts[:-1]]}, got, mp, {"in_domain": True, "ok": False})
+    for argv, snap, obj, mp in firsts:
+        if obj != snap:
+            report("parse_arguments_result_changed_later", {"argv": argv}, obj, snap, {"in_domain": True, "ok": False})
 
     # ---- 4. worker script choice and file-mode command -------------------------------------
     import importlib.util
